@@ -230,6 +230,39 @@ pub fn run(ctx: &mut Ctx) {
             }
         }
     }
+    // every loose spelling of the same version (v / V prefix, blanks, zero-padded core, tag
+    // without its hyphen) must give a version precedence-equal to the field-built twin
+    ctx.stratum("IS-loose-spellings-vs-field-built-twins", true);
+    for i in 0..p.len() {
+        if !ctx.take() {
+            continue;
+        }
+        // spellings that denote exactly p[i] (the shared `spellings()` also emits a zero-padded
+        // *core only*, which denotes the release)
+        let t0 = p[i].text();
+        let core = format!("{}.{}.{}", p[i].major, p[i].minor, p[i].patch);
+        let rest = t0[core.len()..].to_string();
+        let mut texts = vec![t0.clone(), format!("v{}", t0), format!("V{}", t0), format!("v {}", t0), format!(" {}", t0), format!("{} ", t0), format!("  {}\t", t0), format!("0{}.00{}.0{}{}", p[i].major, p[i].minor, p[i].patch, rest)];
+        if p[i].is_pre() && p[i].pre[0].as_bytes()[0].is_ascii_alphabetic() {
+            texts.push(format!("{}{}", core, &rest[1..]));
+            texts.push(format!("v{}{}", core, &rest[1..]));
+        }
+        for t in texts {
+            for (which, res) in [("spelled-parse", guarded(|| Version::parse(&t))), ("spelled-from-str", guarded(|| t.parse::<Version>()))] {
+                if let Ok(Ok(x)) = res {
+                    ctx.eval(1);
+                    ctx.class(which);
+                    if x.cmp(&cs[i]) != Ordering::Equal || x != cs[i] || x.pre_release != cs[i].pre_release {
+                        ctx.violation(
+                            &format!("precedence/{}/{}", which, p[i].pre.iter().map(|s| if all_digits(s) { "num" } else if s.as_bytes()[0].is_ascii_digit() { "digit-initial" } else { "alpha" }).collect::<Vec<_>>().join(",")),
+                            json!({"text": t, "version": p[i].text()}),
+                            format!("{}: text {:?} read as {:?} is not precedence-equal to the version it denotes, built from fields: {:?}", which, t, x, cs[i]),
+                        );
+                    }
+                }
+            }
+        }
+    }
     ctx.stratum("P-all-pairs-of-pool", true);
     for i in 0..p.len() {
         if !ctx.take() {
